@@ -81,7 +81,31 @@ func ValidateServices(i Input) error {
 		}
 		errs = append(errs, grouperror.Prefix(fmt.Sprintf("%+q: ", n), sErrs...))
 	}
+	errs = append(errs, validateUniqueGetters(i.Services))
 	return grouperror.Prefix("services: ", errs...)
+}
+
+// validateUniqueGetters reports getters used by more than one service,
+// the generated container cannot declare the same method twice.
+func validateUniqueGetters(services map[string]Service) error {
+	users := make(map[string][]string)
+	for _, n := range maps.Keys(services) {
+		s := services[n]
+		if ptr.Dereference(s.Todo, DefaultServiceTodo) || s.Getter == nil {
+			continue
+		}
+		users[*s.Getter] = append(users[*s.Getter], n)
+	}
+	var errs []error
+	for _, g := range maps.Keys(users) {
+		if len(users[g]) > 1 {
+			errs = append(
+				errs,
+				fmt.Errorf("getter %+q is used by more than one service: %s", g, strings.Join(users[g], ", ")),
+			)
+		}
+	}
+	return grouperror.Join(errs...)
 }
 
 func ValidateServiceName(n string) error {
